@@ -333,7 +333,12 @@ fn send_replication(
     }
 
     collect_mappings(&mut serialized, &mut clients)?;
-    collect_despawns(&mut serialized, &mut clients, &mut despawn_buffer)?;
+    collect_despawns(
+        &mut serialized,
+        &mut clients,
+        &mut despawn_buffer,
+        &mut removal_buffer,
+    )?;
     collect_removals(&mut serialized, &mut clients, &removal_buffer)?;
     collect_changes(
         &mut serialized,
@@ -470,8 +475,11 @@ fn collect_despawns(
         Option<&mut ClientVisibility>,
     )>,
     despawn_buffer: &mut DespawnBuffer,
+    removal_buffer: &mut RemovalBuffer,
 ) -> Result<()> {
     for entity in despawn_buffer.drain(..) {
+        // Removals buffered earlier in this tick would re-create the entity on clients.
+        removal_buffer.remove_entity(entity);
         let entity_range = serialized.write_entity(entity)?;
         for (client_entity, mut message, .., mut ticks, visibility) in &mut *clients {
             if let Some(mut visibility) = visibility {
